@@ -222,6 +222,53 @@ def raw_operand(rhs):
     return rhs, None
 
 
+def well_formed(out):
+    """None when `out` is a well-formed dataset, else what is wrong with it"""
+    from valjean.eponine.dataset import Dataset
+    if not isinstance(out, Dataset):
+        return f'not a Dataset ({type(out).__name__})'
+    vshape, eshape = np.shape(out.value), np.shape(out.error)
+    if vshape != eshape:
+        return f'value has shape {vshape}, error has shape {eshape}'
+    if not isinstance(out.bins, OrderedDict):
+        return 'bins is not an OrderedDict'
+    if out.bins:
+        if len(out.bins) != len(vshape):
+            return f'{len(out.bins)} bins for {len(vshape)} dimensions (shape {vshape})'
+        for (key, arr), dim in zip(out.bins.items(), vshape):
+            if len(arr) not in (dim, dim + 1):
+                return f'bins {key!r} has {len(arr)} entries for a dimension of {dim} cells'
+    return None
+
+
+def oracle_well_formed(ctx, kind, out, case, opi):
+    """every result is a well-formed dataset (or an exception was raised)"""
+    if isinstance(out, Exception):
+        return True
+    wrong = well_formed(out)
+    if wrong:
+        ctx.oracle_failure(f'{kind} (step {opi}) returns an ill-formed dataset: {wrong} :: {case}',
+                           case, key='ill-formed-result')
+        return False
+    return True
+
+
+def array_outcome(kind, shape, bins, ashape):
+    """what `dataset (kind) ndarray` can be: (must_raise, shape of a result).  The value
+    has the numpy broadcast shape; + and - keep the error as it is, * and /
+    broadcast it; a result must be a well-formed dataset."""
+    try:
+        bshape = tuple(np.broadcast_shapes(tuple(shape), tuple(ashape)))
+    except ValueError:
+        return True, None
+    if kind in ('add', 'sub') and bshape != tuple(shape):
+        return True, None
+    if bins and (len(bins) != len(bshape)
+                 or any(len(b) not in (n, n + 1) for b, n in zip(bins, bshape))):
+        return True, None
+    return False, list(bshape)
+
+
 def oracle_binop(ctx, kind, left, rhs, out, case, expect_raise):
     from valjean.eponine.dataset import Dataset
     tag = f'{kind}-{"ds" if isinstance(rhs, Dataset) else type(rhs).__name__}'
@@ -243,7 +290,7 @@ def oracle_binop(ctx, kind, left, rhs, out, case, expect_raise):
         ctx.oracle_failure(f'{tag}: value and error of the result differ in shape :: {case}',
                            case, key='shape-value-error')
         return
-    if got_value.shape != want_value.shape or want_value.shape != np.shape(lval):
+    if got_value.shape != want_value.shape:
         ctx.oracle_failure(f'{tag}: result shape {got_value.shape}, plain array operation gives '
                            f'{want_value.shape} :: {case}', case, key='shape-result')
         return
@@ -452,20 +499,30 @@ def gen_rhs(rng, cur, special, nhist):
         if rng.random() < 0.3:
             val = -abs(val)
         return {'k': 'float', 'v': canon_bits(val)}, False
-    if r < 0.45 and shape:                          # ndarray
+    if r < 0.47:                                    # ndarray
         q = rng.random()
-        ashape, bad = list(shape), False
-        if q < 0.12 and any(n != 1 for n in shape):
+        ashape = list(shape)
+        units = [i for i, n in enumerate(shape) if n == 1]
+        if q < 0.08 and any(n != 1 for n in shape):
             k = rng.choice([i for i, n in enumerate(shape) if n != 1])
             ashape[k] = shape[k] + 2                # numpy cannot broadcast
-            bad = True
-        elif q < 0.22 and len(shape) > 1:
-            ashape = list(shape[1:])                # broadcast along the first dimension
-        elif q < 0.30:
-            k = rng.randrange(len(shape))
-            ashape[k] = 1                           # broadcast along dimension k
+        elif q < 0.16 and len(shape) > 1:
+            ashape = list(shape[1:])                # fewer dimensions, broadcast down to the dataset
+        elif q < 0.23 and shape:
+            ashape[rng.randrange(len(shape))] = 1   # unit dimension of the array stretched
+        elif q < 0.60:                              # the array broadcasts the dataset UP
+            mode = rng.choice(['lead', 'stretch', 'both']) if units else 'lead'
+            if mode in ('stretch', 'both'):
+                for i in rng.sample(units, rng.randint(1, len(units))):
+                    ashape[i] = rng.choice([2, 3])
+            if mode in ('lead', 'both') or not shape:
+                ashape = rng.choice([[2], [3], [4, 2], [1, 2]]) + ashape
+                if not shape and rng.random() < 0.3:
+                    ashape = []                     # 0-d dataset with a 0-d array
+            while int(np.prod(ashape)) > 48:
+                ashape[ashape.index(max(ashape))] -= 1
         data = [canon_bits(gen_float(rng, special)) for _ in range(int(np.prod(ashape)))]
-        return {'k': 'arr', 'shape': ashape, 'data': data}, bad
+        return {'k': 'arr', 'shape': ashape, 'data': data}, None      # None: decided by array_outcome
     if r < 0.52:
         return {'k': 'self'}, False
     if r < 0.60 and nhist > 1:
@@ -530,6 +587,11 @@ def gen_case(rng, special=0.0, maxlen=6):
         if r < 0.70:
             kind = rng.choice(ARITH)
             rhs, bad = gen_rhs(rng, cur, special, len(ops) + 1)
+            if rhs['k'] == 'arr':
+                bad, newshape = array_outcome(kind, cur['shape'], [b for _, b in cur['bins']],
+                                              rhs['shape'])
+                if not bad:
+                    cur['shape'] = newshape
             ops.append({'op': kind, 'rhs': rhs, 'raises': bad})
             if rhs['k'] == 'ds' and rhs['ds'].get('mask') is not None:
                 cur['masked'] = True
@@ -599,6 +661,25 @@ def corpus():
                                 'rhs': {'k': 'ds', 'ds': dict(other, bins=[['E', [fb(0.), fb(1.), fb(2.)]],
                                                                             ['t', [fb(.5), fb(1.5)]]])}}]},
     ]
+    # ndarray operands that broadcast the dataset UP (value would outgrow error and bins):
+    # every operator, with and without bins, then carried on through a chain
+    row = {'shape': [1, 3], 'value': [fb(1.), fb(-2.), fb(3.)], 'error': [fb(.1), fb(.2), fb(.3)],
+           'bins': [['e', [fb(0.), fb(1.)]], ['t', [fb(0.), fb(1.), fb(2.), fb(3.)]]],
+           'name': 'row', 'what': 'spam', 'scalar': False}
+    def arr(shape):  # noqa
+        size = int(np.prod(shape))
+        return {'k': 'arr', 'shape': shape, 'data': [fb(float(k) - 2.5) for k in range(size)]}
+    tail = [{'op': 'mul', 'rhs': num(-2), 'raises': False}, {'op': 'copy'}]
+    for kind in ARITH:
+        for left in (row, dict(row, bins=[]), dict(row, bins=[['e', [fb(.5)]], ['t', row['bins'][1][1]]])):
+            for ashape in ([2, 3], [4, 2, 3], [3, 1]):
+                cases.append({'left': left, 'ops': [{'op': kind, 'rhs': arr(ashape), 'raises': None}] + tail})
+        cases.append({'left': row, 'ops': [{'op': 'squeeze'},
+                                           {'op': kind, 'rhs': arr([2, 3]), 'raises': None}] + tail})
+        for scalar in (True, False):
+            cases.append({'left': {'shape': [], 'value': [fb(5.)], 'error': [fb(.5)], 'bins': [],
+                                   'name': 's', 'what': 'k', 'scalar': scalar},
+                          'ops': [{'op': kind, 'rhs': arr([2]), 'raises': None}] + tail})
     return cases
 
 
@@ -624,13 +705,6 @@ def model_rhs(Dataset, rhs, left):
     if isinstance(rhs, Dataset):
         return {'k': 'ds', 'ds': ds_json(rhs)}
     if isinstance(rhs, np.ndarray):
-        shape = np.shape(left.value)
-        try:
-            bshape = np.broadcast_shapes(shape, rhs.shape)
-        except ValueError:
-            bshape = None
-        if bshape == shape:
-            return {'k': 'arr', 'shape': list(shape), 'data': fbits(np.broadcast_to(rhs, shape))}
         return {'k': 'arr', 'shape': list(rhs.shape), 'data': fbits(rhs)}
     return {'k': 'num', 'v': canon_bits(float(rhs))}
 
@@ -672,9 +746,14 @@ def run_impl(ctx, case, steps):
                                key='operand-modified')
         ctx.count(kind + ('' if rhs is None else '_' + ('ds' if isinstance(rhs, Dataset)
                                                         else type(rhs).__name__)))
+        if not oracle_well_formed(ctx, kind, out, case, opi):
+            break               # an ill-formed object is not a dataset: nothing more to say about it
         if kind in ARITH:
             expect = mop.get('raises')
-            if expect is None:      # decided by the documented compatibility rule
+            if isinstance(rhs, np.ndarray):     # numpy broadcasting + a well-formed result
+                expect = array_outcome(kind, np.shape(left.value), list(left.bins.values()),
+                                       rhs.shape)[0]
+            elif expect is None:      # decided by the documented compatibility rule
                 expect = np.shape(rhs.value) != np.shape(left.value) or (
                     bool(rhs.bins) and not all(
                         s == o and np.array_equal(left.bins[s], rhs.bins[o])
@@ -697,9 +776,6 @@ def run_impl(ctx, case, steps):
             step['shares'] = [False, False, False]
             ctx.count('raise_' + type(out).__name__)
             steps.append((case, opi, step))
-            break
-        if not isinstance(out, Dataset):
-            ctx.oracle_failure(f'{kind} does not return a Dataset :: {case}', case, key='not-a-dataset')
             break
         theirs = [a for x in operands for a in arrays_of(x)]
         step['res'] = {'ok': ds_json(out)}
